@@ -37,6 +37,10 @@
   statement spans must be the specification's statement texts (`Spec.stmtTexts L P`; theorem
   `Lace.C17.span_text_eq_statement_render`).  A disagreement turns the `S` answer into
   `stmt-text-mismatch`.
+
+  Fifth computation (C11, ties `Spec.Prog.breaks` to the assembler model's `.break` list): on the same
+  texts the model's `img.bps` must be `P.breaks` (theorem `Lace.C11.breaks_render`).  A disagreement
+  turns the `S` answer into `breaks-mismatch`.
 -/
 import Driver.Proto
 import Driver.Asm
@@ -175,6 +179,21 @@ def textCheck (P : Prog) (runs : List (List Char × Outcome × Option Layout)) :
     else some "stmt-text-mismatch"
   else none
 
+/-- C11: on an accepted text with a validated layout, the model's breakpoint list is `P.breaks` -/
+def breaksCheck (P : Prog) (runs : List (List Char × Outcome × Option Layout)) : Option String :=
+  if P.syntaxOk && P.renderable then
+    let raw := breakIdx P.items 0
+    -- (`eraseDups` is quadratic in the number of `.break` items: skipped beyond 3,000 of them — the
+    -- theorem covers those)
+    if raw.length > 3000 then none else
+    let bs := P.breaks
+    if runs.all (fun (_, o, L) =>
+        match o, L with
+        | .ok img, some _ => img.bps == bs
+        | _, _ => true) then none
+    else some "breaks-mismatch"
+  else none
+
 /-- `P01 stack text₁ text₂|= items…` -/
 def handleP01 (toks : List String) : String :=
   match toks with
@@ -205,11 +224,13 @@ def handleP01 (toks : List String) : String :=
         | m1 :: _ => m1
         | [] => "bad-request"
       "M " ++ m ++ " ;; S " ++
-        (match renderCheck flag P, rangeCheck flag P (runs.map (·.2.2)), textCheck P runs with
-         | some e, _, _ => e
-         | none, some e, _ => e
-         | none, none, some e => e
-         | none, none, none => specOutcome flag P)
+        (match renderCheck flag P, rangeCheck flag P (runs.map (·.2.2)), textCheck P runs,
+            breaksCheck P runs with
+         | some e, _, _, _ => e
+         | none, some e, _, _ => e
+         | none, none, some e, _ => e
+         | none, none, none, some e => e
+         | none, none, none, none => specOutcome flag P)
     | _, _, _, _ => "bad-request"
   | _ => "bad-request"
 
